@@ -285,6 +285,11 @@ func (x *c18) payload(c *vsched.RunCtx) vsched.Stats {
 	for i := 0; i <= 64; i++ {
 		sizes = append(sizes, i)
 	}
+	type held struct {
+		n    int
+		p, h []byte
+	}
+	var kept []held
 	for _, n := range sizes {
 		st.Execs++
 		var p, h []byte
@@ -296,6 +301,14 @@ func (x *c18) payload(c *vsched.RunCtx) vsched.Stats {
 		sum := sha256.Sum256(p)
 		if len(p) != n || !bytes.Equal(h, sum[:]) {
 			x.report("C18.P", "payload does not carry its SHA-256 hash", fmt.Sprintf("size %d: len=%d", n, len(p)))
+		}
+		kept = append(kept, held{n, p, h})
+	}
+	// results are used after further payloads were generated (a probe keeps them while others run)
+	for _, k := range kept {
+		sum := sha256.Sum256(k.p)
+		if !bytes.Equal(k.h, sum[:]) {
+			x.report("C18.P", "an earlier payload/hash pair was modified by a later generatePayload call", fmt.Sprintf("size %d", k.n))
 		}
 	}
 	st.Nontrivial, st.States, st.Transitions = st.Execs, st.Execs, st.Execs
